@@ -88,4 +88,70 @@ theorem resolveNumpyDtype_needs_dtype_argument (sh : Gen.TObj) : Gen.resolveNump
 
 example : Gen.resolveNumpyDtype (arrayOfDtypeUnion (.node []) [⟨0, 1⟩, ⟨0, 2⟩]) = some [.leaf ⟨0, 1⟩, .leaf ⟨0, 2⟩] := rfl
 
+/-! ## `unwrap_type_alias`
+
+Regenerated statement by statement (`translate_core._gen_unwrap_alias`) over `Gen.AObj`, the picture of a `typing` object the function
+inspects (`typing.get_origin`, `typing.get_args`, `__value__`). The result of subscripting an alias's value is left to `typing`
+(`AObj.inst value args`): what is proved is *which* object is subscripted with *which* arguments. -/
+
+open Gen in
+/-- an object that is no alias and whose origin is no alias (`np.ndarray`, `torch.Tensor`, `np.ndarray[Any, np.dtype[np.float32]]`) -/
+def NoAlias (tp : AObj) : Prop := tp.value? = none
+
+open Gen in
+/-- **a base type that involves no alias is handed on unchanged** -/
+theorem unwrap_identity_without_alias (tp : AObj) (h : NoAlias tp) : unwrapTypeAlias tp = some (some tp) := by
+  unfold NoAlias at h
+  cases tp with
+  | cls n => rfl
+  | alias n v => simp [AObj.value?] at h
+  | inst g as =>
+    cases g with
+    | sub o bs =>
+      have ho : o.value? = none := by simpa [AObj.value?] using h
+      simp [unwrapTypeAlias, pvOrigin, pvValue, AObj.getOrigin, AObj.value?, ho]
+    | _ => rfl
+  | sub o as =>
+    have ho : o.value? = none := by simpa [AObj.value?] using h
+    simp [unwrapTypeAlias, pvOrigin, pvValue, AObj.getOrigin, AObj.value?, ho]
+
+open Gen in
+theorem unwrap_plain_class (n : Nat) : unwrapTypeAlias (.cls n) = some (some (.cls n)) := rfl
+open Gen in
+theorem unwrap_subscripted_class (n : Nat) (args : List AObj) :
+    unwrapTypeAlias (.sub (.cls n) args) = some (some (.sub (.cls n) args)) := rfl
+open Gen in
+/-- a bare alias (`type Arr = np.ndarray`) is replaced by what it stands for -/
+theorem unwrap_bare_alias (n : Nat) (v : AObj) : unwrapTypeAlias (.alias n v) = some (some v) := rfl
+open Gen in
+/-- **a subscripted alias (`npt.NDArray[np.float32]`) is its value subscripted with exactly the arguments written** — not the
+    unsubstituted value (which is what attribute access on the subscripted object would give), none dropped, none reordered -/
+theorem unwrap_subscripted_alias (n : Nat) (v : AObj) (args : List AObj) :
+    unwrapTypeAlias (.sub (.alias n v) args) = some (some (.inst v args)) := rfl
+
+open Gen in
+/-- the function never raises and never returns None, whatever typing object it is given -/
+theorem unwrap_total (tp : AObj) : ∃ r, unwrapTypeAlias tp = some (some r) := by
+  cases h : tp.value? with
+  | none => exact ⟨tp, unwrap_identity_without_alias tp h⟩
+  | some v =>
+    cases tp with
+    | cls n => simp [AObj.value?] at h
+    | inst g as =>
+      cases g with
+      | sub o bs =>
+        have ho : o.value? = some v := by simpa [AObj.value?] using h
+        exact ⟨.inst v as, by simp [unwrapTypeAlias, pvOrigin, pvValue, pvArgs, AObj.getOrigin, AObj.getArgs, ho]⟩
+      | _ => simp [AObj.value?] at h
+    | alias n w => exact ⟨w, rfl⟩
+    | sub o as =>
+      have ho : o.value? = some v := by simpa [AObj.value?] using h
+      exact ⟨.inst v as, by simp [unwrapTypeAlias, pvOrigin, pvValue, pvArgs, AObj.getOrigin, AObj.getArgs, ho]⟩
+
+open Gen in
+/-- one level only: an alias of an alias is resolved to the inner alias (documented behaviour of the source, not a claim of the properties) -/
+example : unwrapTypeAlias (.alias 0 (.alias 1 (.cls 2))) = some (some (.alias 1 (.cls 2))) := rfl
+open Gen in
+example : unwrapTypeAlias (.sub (.alias 0 (.sub (.cls 1) [.cls 9])) [.cls 5]) = some (some (.inst (.sub (.cls 1) [.cls 9]) [.cls 5])) := rfl
+
 end Dltype.CorePyd
